@@ -155,7 +155,8 @@ func init() {
 			unsupported("nested prefix stores")
 		}
 		if pfx.Sub == nil || pfx.Sub.Ctor != "clientPrefix" {
-			unsupported("prefix.NewStore with a prefix that is not a declared client prefix (%s)", pfx.T)
+			// a generic prefix store: key k lives at prefixed(prefix, k) of the parent
+			return []Val{&StoreHandleV{Ghost: parent.Ghost, Prefix: mk(SStr, bstrOf(pfx.T)), Kind: "prefix"}}, nil
 		}
 		return []Val{&StoreHandleV{Ghost: parent.Ghost, Prefix: pfx.Sub.Args[0], Kind: "client"}}, nil
 	})
@@ -415,6 +416,16 @@ func (e *Engine) sprintf(st *State, fr *Frame, args []Val, c *ssa.CallCommon) Va
 			var inner Val = arg
 			if iv, isI := arg.(*IfaceV); isI && iv.Dyn != nil {
 				inner = iv.V
+				// a named type may carry String()/Format/Error methods that change what %s/%v print: not modelled
+				if nt, named := types.Unalias(iv.Dyn).(*types.Named); named && nt.NumMethods() > 0 {
+					ok = false
+					break
+				}
+				if pt, isPtr := iv.Dyn.(*types.Pointer); isPtr {
+					_ = pt
+					ok = false
+					break
+				}
 			}
 			switch verb {
 			case 's', 'v':
@@ -463,6 +474,9 @@ func (e *Engine) storeKeyTerm(st *State, h *StoreHandleV, k Val) *Term {
 	b := e.toBytesTerm(st, k)
 	if h.Kind == "relayers" {
 		return mk(SKey, "(relayers "+bstrOf(b.T)+")")
+	}
+	if h.Kind == "prefix" {
+		return mk(SKey, "(prefixed "+h.Prefix.T+" "+bstrOf(b.T)+")")
 	}
 	if h.Prefix != nil || h.Opaque != nil {
 		pfx := h.Prefix
